@@ -65,6 +65,27 @@ def escape_loop_shape(w, f):
     return True, "single pass over chars(): backslash -> two backslashes, dot -> backslash dot, one character consumed per iteration"
 
 
+def keys_rule(ctx, w, rule):
+    """Rules of one kind are identified by rule_id only (shared with C13: the IndexSets keep ids unique per kind only if Hash / Eq agree with the id)."""
+    ctx.rule(rule, "rules of one kind are identified by rule_id only: Hash / PartialEq / Equivalent<str> of the three rule types read nothing but rule_id")
+    n = 0
+    for ty in ("ConditionalPushRule", "PatternedPushRule", "SimplePushRule<T>"):
+        for tr, meth in (("core::hash::Hash", "hash"), ("core::cmp::PartialEq", "eq")):
+            cands = [p for p in w.fn_index if p.startswith(f"<{PU}{ty} as {tr}") and p.endswith("::" + meth)]
+            for p in cands:
+                fn = w.fn(p)
+                n += 1
+                fields = set()
+                for body in M.all_bodies(fn):
+                    for b in body["blocks"]:
+                        for st in b["s"]:
+                            collect_fields(st, fields)
+                        collect_fields(b["t"], fields)
+                ctx.check(fields <= {"rule_id"} and "rule_id" in fields, rule, f"{rule}:{ty}:{tr.rsplit('::', 1)[-1]}", w.where(fn),
+                          bad_msg=f"{p} reads fields {sorted(fields)} (uniqueness per kind must depend on rule_id only)")
+    ctx.floor("key impls", n, 6)
+
+
 def list_order_rule(ctx, w, rule):
     """No function of ruma_common::push disturbs the order of a rule list (shared with C13: the order after any edit is the documented one)."""
     ctx.rule(rule, "no function of ruma_common::push disturbs the order of a rule list: the IndexSets are only changed by order-preserving operations "
@@ -439,23 +460,10 @@ def run(ctx):
                       bad_msg=f"the array's elements are not all visited: {cutting or 'the element loop has an early exit'} stops at the first element that is not a scalar, so the "
                               f"scalars after it are lost (e.g. m.mentions.user_ids = [{{..}}, \"@me:hs\"] no longer contains @me:hs)")
 
-    ctx.rule("C12.keys", "rules of one kind are identified by rule_id only: Hash / PartialEq / Equivalent<str> of the three rule types read nothing but rule_id")
-    n = 0
-    for ty in ("ConditionalPushRule", "PatternedPushRule", "SimplePushRule<T>"):
-        for tr, meth in (("core::hash::Hash", "hash"), ("core::cmp::PartialEq", "eq")):
-            cands = [p for p in w.fn_index if p.startswith(f"<{PU}{ty} as {tr}") and p.endswith("::" + meth)]
-            for p in cands:
-                fn = w.fn(p)
-                n += 1
-                fields = set()
-                for body in M.all_bodies(fn):
-                    for b in body["blocks"]:
-                        for st in b["s"]:
-                            collect_fields(st, fields)
-                        collect_fields(b["t"], fields)
-                ctx.check(fields <= {"rule_id"} and "rule_id" in fields, "C12.keys", f"C12.keys:{ty}:{tr.rsplit('::', 1)[-1]}", w.where(fn),
-                          bad_msg=f"{p} reads fields {sorted(fields)} (uniqueness per kind must depend on rule_id only)")
-    ctx.floor("key impls", n, 6)
+    keys_rule(ctx, w, "C12.keys")
+    # sender_notification_permission is evaluated in the context ruma-events builds from the room's power levels: that conversion is part of this property
+    from . import C20 as _C20
+    _C20.push_context_rule(ctx, W.World(fx, ["ruma_common", "ruma_events"]), "C12.conditions")
     # ---- word-mode glob: chunking of the pattern ---------------------------------------------------------------------------------
     ctx.rule("C12.word-chunks", "matches_word splits the pattern into maximal runs of literal characters (regex-escaped) and maximal runs of wildcards "
                                 "(translated by wildcards_to_regex): checked by unrolling the loop over char_indices for every sequence of up to three "
